@@ -890,6 +890,9 @@ impl TransactionBuilder {
                 )));
             }
             self.collateral_return = Some(return_output);
+        } else {
+            // nothing is left to return: a return set by an earlier call does not stay behind
+            self.collateral_return = None;
         }
         self.set_total_collateral(total_collateral);
 
